@@ -111,7 +111,7 @@ def check_stream_forwarder(ctx, rule, handler, req_adt, step):
 
 # ------------------------------------------------------------------------------------------------------------------
 # the client side of the RPC layer (src/api.rs): a method of Doc / DocsApi evaluated with its parameters as named tokens
-def eval_client(f, path, closed=0):
+def eval_client(f, path, closed=0, trace_ops=None):
     """returns (rendered result, [(rpc kind, rendered request)]); `closed`: what the handle's closed flag reads"""
     from . import feval as E, coll
     b = f.body(path)
@@ -130,10 +130,14 @@ def eval_client(f, path, closed=0):
         full = (t["f"].get("full") or "") + (t["f"].get("path") or "")
         if name in ("rpc", "server_streaming", "client_streaming", "bidi_streaming", "notify") and "irpc" in full:
             sent.append((name, E.describe(it.resolve(args[1]), f)))
+            if trace_ops is not None:
+                trace_ops.append("rpc")
             return E.Tok("fut:rpc")
         if name == "ensure_open":
             return E.Ok(E.UNIT) if not closed else E.Err(E.Tok("document-is-closed"))
         if ("AtomicBool" in full or "atomic::Atomic" in full) and names and "closed" in names[0]:
+            if trace_ops is not None:
+                trace_ops.append("closed." + name)
             if name in ("load", "swap", "fetch_or"):
                 return E.Int(1 if closed else 0)
             if name == "store":
@@ -199,6 +203,16 @@ def check_close_idempotent(ctx, rule):
             ok = got.startswith("Ok(") and [x[1] for x in sent] == ["CloseRequest(self.doc)"]
             spec = "one close request for its own document"
         ctx.check(ok, rule, "api::Doc::close", "close[handle-%s]" % ("already-closed" if closed else "open"), "returns %s, sends %s; spec: %s" % (got[:80], sent, spec), b.sp)
+    # ... also when two close() calls on clones of one handle overlap: the flag has to be *claimed* by an atomic
+    # read-modify-write before the request goes out (a `load` that is followed by a `store` only after the reply lets both calls
+    # through, and two handles are released for one open)
+    ops = []
+    eval_client(f, "api::Doc::close", closed=0, trace_ops=ops)
+    RMW = ("closed.swap", "closed.compare_exchange", "closed.compare_exchange_weak", "closed.fetch_or", "closed.fetch_update", "closed.fetch_xor")
+    first_rpc = ops.index("rpc") if "rpc" in ops else len(ops)
+    claimed = any(o in RMW for o in ops[:first_rpc])
+    ctx.check(claimed, rule, "api::Doc::close", "close[two-overlapping-closes-of-one-handle]",
+              "operations on the closed flag and the request, in order: %s; spec: an atomic read-modify-write of the flag (swap / compare_exchange / fetch_or) before the close request is sent" % ops, b.sp)
 
 
 def check_doc_set(ctx, rule):
